@@ -14,6 +14,30 @@ def _c(text, ref):
 
 
 CHECKS = {
+    "C01": _c("Engineered primary-hash collisions (constants HashOf/ConfOf realised through Config.KeyToHash) in the design spec: a Get can "
+              "only return a value written under an equal key when conflicts are non-zero and differ; observer checks the provenance of "
+              "every value returned by Get on real traces (colliding, string-like and integer-like key configurations).", "DESIGN.md 6 (C01)"),
+    "C03": _c("policy.Add transcribed with its arithmetic (room, cost>MaxCost, updateIfHas, sampling rounds); action-level properties "
+              "'an admission never leaves used above MaxCost' and 'used = sum of accounted costs' for every sequence of the small configs "
+              "incl. UpdateMaxCost, Config.Cost and the internal item cost; observer judges RemainingCost at quiescent points and every "
+              "white-box admission record of real executions.", "DESIGN.md 6 (C03)"),
+    "C06": _c("Single-client histories with room to spare: TLC-generated behaviours (every applier lag is an explicit model step) are forced on "
+              "the real cache and every Get/GetTTL/Set result is judged by a TLA+ reference-map observer (ObsRef.tla: map + FIFO of pending "
+              "writes, set of possible states over unknown lag and sweep moments; Wait must empty the FIFO).", "DESIGN.md 6 (C06)"),
+    "C07": _c("Clock ticks are an independent action of the design spec, so every moment of observation relative to expiry and sweep is "
+              "explored; on the real cache the fake clock of testing/synctest makes the expiration instant exact and the observer rejects "
+              "any Get/GetTTL outcome that contradicts it.", "DESIGN.md 6 (C07)"),
+    "C08": _c("Design spec: invariant 'a call in progress can always make progress' (no stuck state) exhaustively and 'every call returns' under "
+              "fairness (TLC liveness) on the hand-off configurations (Wait/Del/Set/Clear, buffer of one); the same schedules are forced on the real "
+              "cache where a hang or goroutine leak is decided deterministically by the synctest bubble; free-running runs with 2..64 goroutines "
+              "over all listed calls under the Go race detector; panics, hangs, leaks and race reports become trace events judged by the observer.",
+              "DESIGN.md 6 (C08)"),
+    "C09": _c("The sampling loop of policy.Add (refill without de-duplication, first minimum, strict comparison) is part of the design spec; "
+              "on the real cache every sampling round is recorded under the policy lock (sample with estimates, victim, newcomer estimate) "
+              "and the observer checks the statement round by round.", "DESIGN.md 6 (C09)"),
+    "C15": _c("Clear and Close are modelled stage by stage (stop rendezvous, drain, policy, store, restart / final stop); post-conditions are "
+              "latched in the design spec and judged by the observer on snapshots taken right after Clear returns, on calls after Close, and "
+              "on goroutine leaks reported by the synctest bubble.", "DESIGN.md 6 (C15)"),
     "C02": _c("Invariant 'the map never holds a value already passed to OnExit' checked on every interleaving of the small configs; "
               "observer rejects any Get that starts after Exit(v) and returns v, on every replayed/recorded execution.", "DESIGN.md 6 (C02)"),
     "C04": _c("Per-value callback counts (exit<=1, evict/reject<=1 and followed by exit, refused values never reported, values accepted "
